@@ -111,6 +111,8 @@ void build_alphabet() {
   add("y:=load(q,R1)", ref_load(VQ, VR1, VY));
   add("q:=gep(p,R1,0)", ref_gep(VP, VR1, VQ, VR1, 0));
   add("q:=gep(p,R1,4)", ref_gep(VP, VR1, VQ, VR1, 4));
+  // an offset that is a variable: y is 0 in one witness and 4 in the other and unknown to the domain ("may be the same cell")
+  { Op o = ref_gep(VP, VR1, VQ, VR1, 0); o.e = lin({{1, VY}}, 0); add("q:=gep(p,R1,y)", o); }
   add("assume(p==q)", ref_assume(RC_EQ, VP, VQ));
   add("assume(p!=q)", ref_assume(RC_NEQ, VP, VQ));
   add("assume(p!=null)", ref_assume(RC_NOT_NULL, VP));
@@ -204,6 +206,7 @@ bool cstep(const ROp &a, const RW &in, std::vector<RW> &out) {
     long r = in.ref[ridx(o.v0)];
     if (r == 0) return false;
     long off = off_of(r) + o.e.cst;
+    for (auto &t : o.e.terms) off += t.first * scalar_of(in, t.second);
     if (off != 0 && off != 4) return false;
     if (!well_typed(in, r, o.v1)) return false;
     w.ref[ridx(o.v2)] = obj_of(r) * 8 + off;
@@ -271,7 +274,7 @@ std::set<uint64_t> distinct_states;
 
 RWSet initial_witnesses() {
   RWSet W;
-  long sc[2][2] = {{0, 0}, {3, -1}};
+  long sc[2][2] = {{0, 0}, {3, 4}};
   for (auto &s : sc)
     for (long b = 0; b < 2; b++) {
       RW w;
